@@ -32,13 +32,14 @@ NEEDS = {
 
 def main():
     letter, resdir, prefix = sys.argv[1], sys.argv[2], sys.argv[3]
-    rnd = {"A": 1, "B": 1, "C": 2, "D": 3, "E": 4, "F": 5, "G": 6, "H": 7, "J": 8, "K": 9, "L": 10, "M": 11}[letter]
+    rnd = {"A": 1, "B": 1, "C": 2, "D": 3, "E": 4, "F": 5, "G": 6, "H": 7, "J": 8, "K": 9, "L": 10, "M": 11, "N": 12}[letter]
     kinds = {"D": "two cooperating sites that each look fine alone, or state that survives between uses",
              "E": "a performance optimisation a maintainer would merge that is subtly wrong for a narrow class of inputs",
              "F": "a clean-up / refactoring / modernisation commit that is not quite behaviour-preserving",
              "G": "a feature addition, an over-broad bug fix or an error-handling improvement that changes behaviour the property pins",
              "H": "a hardening / resource-limit / sanitising commit, a portability adaptation or an internal API reshape",
              "L": "any realistic commit designed to slip past the tester as strengthened after round 9 (methods described to the author; computed collisions of 64-bit digests ruled out)",
+             "N": "any realistic commit designed to slip past the tester as strengthened after round 11 (methods described to the author)",
              "M": "any realistic commit designed to slip past the tester as strengthened after round 10 (methods described to the author; asked for a part of the code and a kind of mistake the earlier rounds did not revolve around)",
              "K": "any realistic commit designed to slip past the tester as strengthened after round 8 (its methods, including the history, boundary, long-input, literal-spelling and depth-limit streams, were described to the author)",
              "J": "any realistic commit designed to slip past a strong tester whose methods (exhaustive small inputs, differential reference, metamorphic relations, boundary values, long inputs, histories, race detector) were described to the author"}
@@ -67,6 +68,9 @@ def main():
     elif letter == "M":
         from seedmeta_m import NEEDS_M
         table = NEEDS_M
+    elif letter == "N":
+        from seedmeta_n import NEEDS_N
+        table = NEEDS_N
     else:
         table = NEEDS[letter]
     for pid, (needs, hist) in sorted(table.items()):
